@@ -8,8 +8,10 @@ package tlsframe
 import (
 	"context"
 	"fmt"
+	"io"
 	"log/slog"
 	"math/rand/v2"
+	"net"
 	"os"
 	"strconv"
 	"strings"
@@ -34,24 +36,124 @@ func repoDir() string {
 type world struct {
 	t1, t2 *cluster.TLSTransport
 	to     string
+	port   int
+	px     *proxy
 }
 
 func newWorld(t *testing.T) *world {
 	logger := slog.New(slog.DiscardHandler)
-	mk := func(cfgFile string) *cluster.TLSTransport {
+	mk := func(cfgFile string, port int) *cluster.TLSTransport {
 		cfg, err := cluster.GetTLSTransportConfig(repoDir() + "/cluster/testdata/" + cfgFile)
 		if err != nil {
 			t.Fatalf("tls config: %v", err)
 		}
-		tr, err := cluster.NewTLSTransport(context.Background(), logger, prometheus.NewRegistry(), "127.0.0.1", 0, cfg)
+		var tr *cluster.TLSTransport
+		for attempt := 0; attempt < 50; attempt++ { // re-binding the port of a transport that was just shut down
+			tr, err = cluster.NewTLSTransport(context.Background(), logger, prometheus.NewRegistry(), "127.0.0.1", port, cfg)
+			if err == nil {
+				break
+			}
+			time.Sleep(20 * time.Millisecond)
+		}
 		if err != nil {
 			t.Fatalf("tls transport: %v", err)
 		}
 		return tr
 	}
-	w := &world{t1: mk("tls_config_node1.yml"), t2: mk("tls_config_node2.yml")}
-	w.to = fmt.Sprintf("127.0.0.1:%d", w.t2.GetAutoBindPort())
+	w := &world{t1: mk("tls_config_node1.yml", 0), t2: mk("tls_config_node2.yml", 0)}
+	w.port = w.t2.GetAutoBindPort()
+	w.px = newProxy(fmt.Sprintf("127.0.0.1:%d", w.port))
+	w.to = w.px.ln.Addr().String()
 	return w
+}
+
+// proxy: a TCP relay between the sender and the peer, so that the harness can break the established connections
+// the way a crashed peer (or a reset on the path) does, without touching either transport.
+type proxy struct {
+	ln    net.Listener
+	to    string
+	mu    sync.Mutex
+	conns []net.Conn
+}
+
+func newProxy(to string) *proxy {
+	ln, err := net.Listen("tcp", "127.0.0.1:0")
+	if err != nil {
+		panic(err)
+	}
+	p := &proxy{ln: ln, to: to}
+	go func() {
+		for {
+			c, err := ln.Accept()
+			if err != nil {
+				return
+			}
+			d, err := net.Dial("tcp", p.to)
+			if err != nil {
+				c.Close()
+				continue
+			}
+			p.mu.Lock()
+			p.conns = append(p.conns, c, d)
+			p.mu.Unlock()
+			go func() { io.Copy(d, c); d.Close() }()
+			go func() { io.Copy(c, d); c.Close() }()
+		}
+	}()
+	return p
+}
+
+// breakAll resets every relayed connection (SO_LINGER 0: the sender's next write fails).
+func (p *proxy) breakAll() {
+	p.mu.Lock()
+	defer p.mu.Unlock()
+	for _, c := range p.conns {
+		if tc, ok := c.(*net.TCPConn); ok {
+			tc.SetLinger(0)
+		}
+		c.Close()
+	}
+	p.conns = nil
+}
+
+// restart <n>: every established connection to the peer breaks (peer crash + restart on its address, or a reset on
+// the path); then n packets are written one after the other.  The pooled connection is dead: a write on it fails
+// (or is lost), after which the pool must dial a new connection, so the later packets arrive.
+func (w *world) restart(n int, tag string) string {
+	w.px.breakAll()
+	time.Sleep(20 * time.Millisecond)
+	errs := 0
+	for i := range n {
+		if _, err := w.t1.WriteTo([]byte(fmt.Sprintf("%s/r/%d/", tag, i)), w.to); err != nil {
+			errs++
+		}
+		time.Sleep(20 * time.Millisecond)
+	}
+	got, first, last := 0, -1, -1
+	deadline := time.After(2 * time.Second)
+loop:
+	for got < n {
+		select {
+		case p := <-w.t2.PacketCh():
+			parts := strings.Split(string(p.Buf), "/")
+			if len(parts) == 4 && parts[0] == tag && parts[1] == "r" {
+				k, _ := strconv.Atoi(parts[2])
+				got++
+				if first < 0 || k < first {
+					first = k
+				}
+				if k > last {
+					last = k
+				}
+				if k == n-1 {
+					break loop
+				}
+			}
+		case <-deadline:
+			break loop
+		}
+	}
+	return fmt.Sprintf("%d %d %d %d", got, first, last, errs)
 }
 
 // burst <senders> <packets per sender> <payload size> : concurrent WriteTo calls to one peer
@@ -113,11 +215,16 @@ func TestEngine(t *testing.T) {
 	defer tr.Close()
 	w := newWorld(t)
 	defer w.t1.Shutdown()
-	defer w.t2.Shutdown()
+	defer func() { w.t2.Shutdown() }()
 	run := func(header string, ops []string) {
 		tr.Linef("%s", header)
 		for k, op := range ops {
 			f := strings.Fields(op)
+			if f[0] == "restart" {
+				n, _ := strconv.Atoi(f[1])
+				tr.Linef("%s -> %s", op, w.restart(n, fmt.Sprintf("%s.%d", strings.Fields(header)[1], k)))
+				continue
+			}
 			g, _ := strconv.Atoi(f[1])
 			n, _ := strconv.Atoi(f[2])
 			size, _ := strconv.Atoi(f[3])
@@ -147,6 +254,9 @@ func TestEngine(t *testing.T) {
 		var ops []string
 		for range 1 + r.IntN(3) {
 			ops = append(ops, fmt.Sprintf("burst %d %d %d", 1+r.IntN(8), 1+r.IntN(40), hx.Pick(r, []int{0, 1, 10, 200, 1500, 9000})))
+		}
+		if r.IntN(4) == 0 {
+			ops = append(ops, fmt.Sprintf("restart %d", 6+r.IntN(6)), fmt.Sprintf("burst %d %d %d", 1+r.IntN(4), 1+r.IntN(10), 10))
 		}
 		run(fmt.Sprintf("case %d", id), ops)
 	}
